@@ -288,6 +288,18 @@ class ReqQuantifier(ReqModel):
     (ReqDescriptor executes this method's real body as its parent's answer)"""
     qual = 'symbolic:ResultQuantifier._required_variables_from_child_'
     cls = 'ResultQuantifier'
+    props = ('C02', 'C16', 'C15')
+
+    def on_exit(self, eng, o):
+        super().on_exit(eng, o)
+        st = o.st
+        wt = st.locals.get('when_true')
+        if o.sig == RETURN and isinstance(wt, C) and st.ghost.get('asked_when'):
+            # a quantifier is true exactly when its descriptor is: the parent is asked for that same truth value (or without
+            # assuming one)
+            ok = all(a is None or a == wt.v for a in st.ghost['asked_when'])
+            eng.oblige(st, "req/parent-is-asked-for-the-truth-value-the-operator-can-actually-have", z3.BoolVal(bool(ok)),
+                       asked=repr(st.ghost['asked_when']), own=repr(wt.v))
 
     def getattr(self, eng, st, recv, name):
         if isinstance(recv, ZV) and recv.t.eq(self.n) and name == '_child_':
